@@ -13,7 +13,7 @@
 From Verif Require Import Lib.Bytes Json.Ast Json.Parse.
 From Verif Require Import Auth.StateNeeded Auth.StateNeededProofs Auth.Checker Auth.CheckerProofs.
 From Verif Require Import Auth.GoJson Auth.Ids Auth.Types Auth.Versions Auth.Abs Auth.Decide Auth.Model.
-From Verif Require Import Auth.CheckerAuth Auth.CheckerAuthProofs Auth.C09Needed Auth.C09NeededProofs Auth.C09OrderProofs.
+From Verif Require Import Auth.CheckerAuth Auth.CheckerAuthProofs Auth.C09Needed Auth.C09NeededProofs Auth.C09OrderProofs Auth.C09LinkProofs.
 From Coq Require Import Sorted Permutation.
 Open Scope N_scope.
 
@@ -164,14 +164,9 @@ Proof. exact allowed9_is_allowed_model. Qed.
 
 (* ---------------- AddAuthEvents is sufficient ---------------- *)
 
-(* add_auth_events_sufficient (partial): a server that evaluates with exactly the events filed
-   under a key set ks (what the references name) reaches the verdict of the server that built the
-   event with its whole state, provided ks contains the read-set.
-   Missing for the full statement: the inclusion  needed7 e  within  tuples (state_needed e)
-   (two vocabularies: C07's accessors match keys exactly, StateNeeded.v matches them the way
-   encoding/json does) is not proved here; the oracle C09.prop.readset_within_needed checks it
-   against StateNeededForAuth of the implementation on every generated event. *)
-Theorem add_auth_events_sufficient_partial :
+(* a server that evaluates with exactly the events filed under a key set ks reaches the verdict
+   of the server that built the event with its whole state, provided ks contains the read-set *)
+Theorem verdict_same_on_state_filed_under_keys :
   forall sig f e st ks,
     (forall k, In k (needed7 e) -> In k ks) ->
     provider_ok st = true -> one_room f st = true ->
@@ -179,6 +174,34 @@ Theorem add_auth_events_sufficient_partial :
 Proof.
   intros sig f e st ks Hks PO OR. apply verdict_ignores_removed_state; auto.
   intros ty sk x I Hx M. apply existsb_exists. exists (ty, sk). split; [apply Hks; exact I|exact M].
+Qed.
+
+(* the read-set of the check is within the tuples StateNeededForAuth names.  Two vocabularies meet
+   here: C07's accessors match member names exactly, StateNeeded.v matches them the way
+   encoding/json does (ASCII case ignored, last match wins); they read the same members when no
+   member name of the event, its content, the third_party_invite and its signed object is a case
+   variant of a field name (exact_keys, Auth/C09Needed.v).  Excluded: a member event whose
+   content is null (null_member) -- the needed-state computation fails for it and names nothing,
+   while the check looks up the create event before it rejects (only the class of the rejection
+   depends on the state). *)
+Theorem readset_within_state_needed :
+  forall e, exact_keys e = true -> null_member e = false ->
+    forall k, In k (needed7 e) -> In k (tuples (state_needed e)).
+Proof. exact needed7_within_state_needed. Qed.
+
+(* add_auth_events_sufficient: a server that evaluates with exactly the events filed under the
+   tuples of StateNeededForAuth(e) -- what the references stored by AddAuthEvents name
+   (add_auth_events_covers_needed, add_auth_events_references_only_needed) -- reaches the verdict of
+   the server that built the event with its whole state. *)
+Theorem add_auth_events_sufficient :
+  forall sig f e st,
+    exact_keys e = true -> null_member e = false ->
+    provider_ok st = true -> one_room f st = true ->
+    allowed9 sig f e (filter (fun a => existsb (fun k => matches7 k a) (tuples (state_needed e))) st)
+    = allowed9 sig f e st.
+Proof.
+  intros sig f e st X NM PO OR. apply verdict_same_on_state_filed_under_keys; auto.
+  apply readset_within_state_needed; assumption.
 Qed.
 
 (* ---------------- non-vacuity: concrete instances ---------------- *)
@@ -238,6 +261,14 @@ Example add_auth_events_instance :
           StateNeeded.ev_id (x_json x_ev4)].
 Proof. vm_compute. reflexivity. Qed.
 
+(* the hypotheses of add_auth_events_sufficient hold of the restricted join above, and its
+   read-set is non-trivial: create, power levels, join rules, the joiner and the authoriser *)
+Example link_hypotheses_inhabited :
+  exact_keys (x_json x_ev5) = true /\ null_member (x_json x_ev5) = false /\
+  length (needed7 (x_json x_ev5)) = 6%nat /\
+  forallb (fun k => existsb (tuple_eqb k) (tuples (state_needed (x_json x_ev5)))) (needed7 (x_json x_ev5)) = true.
+Proof. vm_compute. repeat split; reflexivity. Qed.
+
 (* the cache discipline is what the reuse theorem rests on: a context whose checks write the join
    rule back (the code before the repair) is not transparent -- toy auth model, verdict = the
    cached rule, every check leaves the rule changed *)
@@ -262,4 +293,6 @@ Print Assumptions verdict_ignores_removed_state.
 Print Assumptions checker_reuse_transparent.
 Print Assumptions checker_reuse_transparent_auth.
 Print Assumptions allowed9_is_C07_model.
-Print Assumptions add_auth_events_sufficient_partial.
+Print Assumptions verdict_same_on_state_filed_under_keys.
+Print Assumptions readset_within_state_needed.
+Print Assumptions add_auth_events_sufficient.
